@@ -236,6 +236,25 @@ def single_op_programs(rng):
     for ax in (0, 1, -1, -2, None):
         progs.append({'inputs': [[2, 2]], 'steps': [{'op': 'sum', 'a': 0, 'axis': ax}], 'out': 1, 'out_shape': []})
         progs.append({'inputs': [[2, 3]], 'steps': [{'op': 'sum', 'a': 0, 'axis': ax}], 'out': 1, 'out_shape': []})
+    # item assignment whose right-hand side carries leading length-1 axes that NumPy strips (y[0] = reshape(x, (1, 3)), (1,1,3) into
+    # a (2,3) buffer): the adjoint of the right-hand side is the adjoint of the slice, entry by entry
+    progs.append({'inputs': [[3]], 'steps': [{'op': 'zeros', 'shape': [2, 3], 'like': 0}, {'op': 'reshape', 'a': 0, 'shape': [1, 3], 'how': 'fn'},
+                                              {'op': 'setitem', 'buf': 1, 'idx': [0], 'val': 2}, {'op': 'bin', 'fn': 'mul', 'a': 0, 'b': 0},
+                                              {'op': 'setitem', 'buf': 1, 'idx': [1], 'val': 3}], 'out': 1, 'out_shape': [2, 3]})
+    progs.append({'inputs': [[3]], 'steps': [{'op': 'zeros', 'shape': [2, 3], 'like': 0}, {'op': 'ew', 'fn': 'sin', 'a': 0},
+                                              {'op': 'reshape', 'a': 2, 'shape': [1, 1, 3], 'how': 'fn'},
+                                              {'op': 'setitem', 'buf': 1, 'idx': [slice(None)], 'val': 3}], 'out': 1, 'out_shape': [2, 3]})
+    # a Python list / tuple assigned into a slice of a traced buffer (NumPy and UTPM accept it as the constant it is)
+    for form in ('list', 'tuple', 'array'):
+        progs.append({'inputs': [[3]], 'steps': [{'op': 'zeros', 'shape': [3], 'like': 0}, {'op': 'setarr', 'buf': 1, 'lo': 0, 'hi': 2, 'c': [4.0, 5.0], 'zerod': False, 'form': form},
+                                                  {'op': 'getitem', 'a': 0, 'idx': [0], 'bare': False}, {'op': 'getitem', 'a': 0, 'idx': [1], 'bare': False},
+                                                  {'op': 'bin', 'fn': 'mul', 'a': 2, 'b': 3}, {'op': 'setitem', 'buf': 1, 'idx': [2], 'val': 4},
+                                                  {'op': 'bin', 'fn': 'mul', 'a': 1, 'b': 0}, {'op': 'bin', 'fn': 'mul', 'a': 5, 'b': 0}], 'out': 6, 'out_shape': [3]})
+    # a private copy of a traced value made with the standard copy protocol, then written into
+    for how in ('deepcopy', 'method'):
+        progs.append({'inputs': [[3]], 'steps': [{'op': 'deepcopy', 'a': 0, 'how': how}, {'op': 'getitem', 'a': 0, 'idx': [1], 'bare': False},
+                                                  {'op': 'binc', 'fn': 'mul', 'a': 2, 'c': 2.0, 'side': 'r'}, {'op': 'setitem', 'buf': 1, 'idx': [0], 'val': 3},
+                                                  {'op': 'bin', 'fn': 'mul', 'a': 1, 'b': 0}], 'out': 4, 'out_shape': [3]})
     # an entry read through the public .flat attribute of a matrix
     progs.append({'inputs': [[2, 2]], 'steps': [{'op': 'flatget', 'a': 0, 'i': 3}, {'op': 'getitem', 'a': 0, 'idx': [0, 0], 'bare': False},
                                                  {'op': 'bin', 'fn': 'mul', 'a': 1, 'b': 2}], 'out': 3, 'out_shape': []})
